@@ -15,14 +15,43 @@
 (*       character-level); an element that a style sets carries a value    *)
 (*       that identifies that style, so that the observed result names     *)
 (*       the style each element was taken from (its "owner").              *)
-(* Abstract state   st = [reg |-> registry]                                *)
+(* Abstract state   st = [reg |-> registry, cl |-> registry, has |-> BOOLEAN]*)
+(*   reg  the registry the behaviour works on                              *)
+(*   cl   a second registry that lives next to it: the copy taken by the   *)
+(*        last Clone (has = FALSE: none taken yet).  Operations are        *)
+(*        addressed to it by wrapping them: [op |-> "OnClone", o |-> op].  *)
+(*        From Clone on the two have separate histories; whatever is done  *)
+(*        to one (through the API or in place through pointers it handed   *)
+(*        out) the other stays as it is.  The copy is NOT looked at when   *)
+(*        it is taken, nor after a step: it is observed only through the   *)
+(*        operations the behaviour addresses to it (Peek = look at all of  *)
+(*        it), so "when is a style of the copy first read" is part of the  *)
+(*        behaviour.                                                       *)
 (* An operation is a record [op |-> name, ...args].                        *)
+(* A based-on reference / queried id is a style id, NONE, GHOST or an      *)
+(* ALIAS of a style id: a string that is not a style id but resembles one  *)
+(* (the display name of that style, its id in other letter case, its id    *)
+(* with a blank added, the label the library's tables of predefined styles *)
+(* give that id).  An alias is as undefined as GHOST.                      *)
+(* A registry may also come from a styles part (XML) through one of the    *)
+(* library's loaders (LoadXML): what C14 says holds for it like for any    *)
+(* registry; whether a loader accepts its input is not C14's business.     *)
 (***************************************************************************)
 EXTENDS Integers, Sequences, FiniteSets, TLC
 
 NONE  == "none"      \* no basedOn / nothing sets the element
 GHOST == "ghost"     \* a style id that is never defined
 Slots == {"x", "y"}
+
+\* ---- references that resemble a registered style but are not its id ----------
+AllIds     == {"s1", "s2", "s3", "s4", "s5"}
+AliasKinds == {"name", "case", "space", "label"}
+Alias(k, i) == k \o ":" \o i
+AliasesOf(kinds, ids) == {Alias(k, i) : k \in kinds, i \in ids}
+KindOf(b) == IF \E k \in AliasKinds, i \in AllIds : b = Alias(k, i)
+             THEN CHOOSE k \in AliasKinds : \E i \in AllIds : b = Alias(k, i) ELSE ""
+\* how an undefined reference is spelled (part of signatures)
+Undef(b) == IF KindOf(b) = "" THEN "" ELSE "-by-" \o KindOf(b)
 
 \* ---- the concrete formatting elements the property lists ------------------
 ParaAttrs == {"spacing", "indentation", "alignment", "borders", "shading", "keepNext",
@@ -44,7 +73,13 @@ PutAll(reg, defs, i) ==
   IF i > Len(defs) THEN reg
   ELSE PutAll(Put(reg, defs[i].s, Def(defs[i].b, defs[i].x, defs[i].y)), defs, i + 1)
 
-InitSt == [reg |-> EmptyReg]
+\* definitions added to what is registered already: a style that exists is kept (MergeStylesFromXML)
+RECURSIVE MergeAll(_, _, _)
+MergeAll(reg, defs, i) ==
+  IF i > Len(defs) THEN reg
+  ELSE MergeAll(IF defs[i].s \in DOMAIN reg THEN reg ELSE Put(reg, defs[i].s, Def(defs[i].b, defs[i].x, defs[i].y)), defs, i + 1)
+
+InitSt == [reg |-> EmptyReg, cl |-> EmptyReg, has |-> FALSE]
 
 \* ---- the reference resolver ------------------------------------------------
 \* The styles consulted for id, nearest first: id, its basedOn, ... ; the walk ends at a
@@ -81,24 +116,29 @@ NearestSetter(reg, id, slot) ==
 
 \* ---- classes used in witness signatures -------------------------------------
 EndClass(reg, id) ==
-  IF id \notin DOMAIN reg THEN "missing-id"
+  IF id \notin DOMAIN reg THEN "missing-id" \o Undef(id)
   ELSE LET c == Chain(reg, id)
            nb == reg[c[Len(c)]].b
        IN IF nb = NONE THEN "root"
-          ELSE IF nb \notin DOMAIN reg THEN "missing-parent"
+          ELSE IF nb \notin DOMAIN reg THEN "missing-parent" \o Undef(nb)
           ELSE IF Len(c) = 1 THEN "selfloop" ELSE "cycle"
 From(reg, id, o) ==
   IF o = NONE THEN "none" ELSE IF o = id THEN "own"
   ELSE IF o = reg[id].b THEN "parent" ELSE "ancestor"
 
 \* ---- operations ---------------------------------------------------------------
-Mutators  == {"AddStyle", "RemoveStyle", "Create", "Load", "Edit"}
+Mutators  == {"AddStyle", "RemoveStyle", "Create", "Load", "LoadXML", "Edit"}
+XmlHows   == {"parse", "merge", "doc"}   \* ParseStylesFromXML / MergeStylesFromXML / LoadStylesFromDocument
 Resolvers == {"Resolve", "ToXML", "MutRes"}       \* walk the basedOn chain
-Readers   == Resolvers \cup {"Info", "List", "CloneDrop"}  \* must leave the registry as it is
-CloneOps  == {"CloneSwap", "CloneDrop"}
-OpNamesAll == Mutators \cup Readers \cup CloneOps
+Readers   == Resolvers \cup {"Info", "List", "Peek", "CloneDrop"}  \* must leave the registry as it is
+CloneOps  == {"CloneSwap", "CloneDrop"}           \* compound: copy, look at the copy, overwrite one side, look again
+PairOps   == {"Clone", "OnClone"}                 \* the copy as a second live registry
+\* what may be addressed to the copy
+InnerOps  == (Mutators \ {"Load", "LoadXML"}) \cup Resolvers \cup {"Info", "List", "Peek"}
+OpNamesAll == Mutators \cup Readers \cup CloneOps \cup PairOps
 
 \* the library call an operation stands for (used in signatures)
+RECURSIVE Api(_)
 Api(op) ==
   CASE op.op = "Resolve" -> "GetStyleWithInheritance"
     [] op.op = "ToXML"   -> "ApplyStyleToXML"
@@ -107,29 +147,46 @@ Api(op) ==
     [] op.op = "Edit"    -> "GetStyle+edit-in-place"
     [] op.op = "MutRes"  -> "GetStyleWithInheritance+mutate"
     [] op.op = "List"    -> "GetAllStyles/ByType/Heading/Info-lists"
+    [] op.op = "Peek"    -> "GetStyle/StyleExists/GetAllStyles"
     [] op.op = "CloneSwap" -> "Clone"
     [] op.op = "CloneDrop" -> "Clone"
+    [] op.op = "LoadXML" -> (CASE op.how = "parse" -> "ParseStylesFromXML" [] op.how = "merge" -> "MergeStylesFromXML"
+                               [] OTHER -> "LoadStylesFromDocument")
+    [] op.op = "OnClone" -> "Clone+" \o Api(op.o)
     [] OTHER -> op.op
 
-Apply(st, op) ==
-  CASE op.op = "AddStyle"    -> [st EXCEPT !.reg = Put(st.reg, op.s, Def(op.b, op.x, op.y))]
-    [] op.op = "RemoveStyle" -> [st EXCEPT !.reg = Del(st.reg, op.s)]
-    [] op.op = "Create"      -> [st EXCEPT !.reg = Put(st.reg, op.s, Def(op.b, FALSE, FALSE))]
-    [] op.op = "Load"        -> [st EXCEPT !.reg = PutAll(EmptyReg, op.defs, 1)]
+\* one registry
+ApplyReg(reg, op) ==
+  CASE op.op = "AddStyle"    -> Put(reg, op.s, Def(op.b, op.x, op.y))
+    [] op.op = "RemoveStyle" -> Del(reg, op.s)
+    [] op.op = "Create"      -> Put(reg, op.s, Def(op.b, FALSE, FALSE))
+    [] op.op = "Load"        -> PutAll(EmptyReg, op.defs, 1)
+    \* a loader that accepts the styles part: the registry is (parse, doc) / is extended by (merge) what the part defines
+    \* (doc may register predefined styles of the library on top: other ids than the behaviour's)
+    [] op.op = "LoadXML"     -> IF op.how = "merge" THEN MergeAll(reg, op.defs, 1) ELSE PutAll(EmptyReg, op.defs, 1)
     \* the registered object itself (the pointer GetStyle / CreateCustomStyle hand out) is edited in place:
     \* elements are added to the style (x, y) and its basedOn is re-pointed (b) or kept (b = "keep")
-    [] op.op = "Edit"        -> IF op.s \notin DOMAIN st.reg THEN st
-                                ELSE [st EXCEPT !.reg = Put(st.reg, op.s,
-                                        Def(IF op.b = "keep" THEN st.reg[op.s].b ELSE op.b,
-                                            st.reg[op.s].x \/ op.x, st.reg[op.s].y \/ op.y))]
-    [] OTHER                 -> st    \* readers; CloneSwap continues on an equal copy
+    [] op.op = "Edit"        -> IF op.s \notin DOMAIN reg THEN reg
+                                ELSE Put(reg, op.s,
+                                        Def(IF op.b = "keep" THEN reg[op.s].b ELSE op.b,
+                                            reg[op.s].x \/ op.x, reg[op.s].y \/ op.y))
+    [] OTHER                 -> reg    \* readers; CloneSwap continues on an equal copy
+
+Apply(st, op) ==
+  CASE op.op = "Clone"   -> [st EXCEPT !.cl = st.reg, !.has = TRUE]      \* a new copy replaces an earlier one
+    [] op.op = "OnClone" -> IF st.has THEN [st EXCEPT !.cl = ApplyReg(st.cl, op.o)] ELSE st
+    [] OTHER             -> [st EXCEPT !.reg = ApplyReg(st.reg, op)]
+
+RetReg(reg, op) ==
+  CASE op.op = "Resolve" -> IF op.q \in DOMAIN reg THEN "ok" ELSE "nil"
+    [] op.op = "MutRes"  -> IF op.q \in DOMAIN reg THEN "ok" ELSE "nil"
+    [] op.op = "ToXML"   -> IF op.q \in DOMAIN reg THEN "ok" ELSE "err"
+    [] op.op = "Info"    -> IF op.q \in DOMAIN reg THEN "ok" ELSE "err"
+    [] OTHER -> "ok"
 
 Ret(st, op) ==
-  CASE op.op = "Resolve" -> IF op.q \in DOMAIN st.reg THEN "ok" ELSE "nil"
-    [] op.op = "MutRes"  -> IF op.q \in DOMAIN st.reg THEN "ok" ELSE "nil"
-    [] op.op = "ToXML"   -> IF op.q \in DOMAIN st.reg THEN "ok" ELSE "err"
-    [] op.op = "Info"    -> IF op.q \in DOMAIN st.reg THEN "ok" ELSE "err"
-    [] OTHER -> "ok"
+  IF op.op = "OnClone" THEN (IF st.has THEN RetReg(st.cl, op.o) ELSE "noclone")
+  ELSE RetReg(st.reg, op)
 
 \* ---- the property as witness sets (empty = holds) -------------------------------
 \* own = what the result of a resolver was observed to carry: a sequence of groups
@@ -168,6 +225,11 @@ StepLawOK(reg, id) ==
       Owner(reg, id, sl) = IF Sets(reg, id, sl) THEN id
                            ELSE IF reg[id].b \in DOMAIN reg THEN Owner(reg, reg[id].b, sl)
                            ELSE NONE
+\* an undefined reference, however it is spelled (GHOST or an alias of a registered style), ends the chain:
+\* the style keeps its own settings and inherits nothing
+UndefParentOK(reg, id) ==
+  (id \in DOMAIN reg /\ reg[id].b \notin DOMAIN reg) =>
+    \A sl \in Slots : Owner(reg, id, sl) = IF Sets(reg, id, sl) THEN id ELSE NONE
 \* the owner is a registered style that sets the element itself
 OwnerOK(reg, id) ==
   \A sl \in Slots : LET o == Owner(reg, id, sl)
